@@ -300,7 +300,7 @@ class LimitLoops(Contract):
         return {
             f'{q}.exclude_': ('C07', 'C03', 'C11', 'C04'), f'{q}.norm_pattern': ('C20',), f'{q}.expand_receives': ('C20', 'C11'),
             f'{q}.each_expansion': ('C07', 'C03'), f'{q}.exclusions_always': ('C03', 'C07', 'C04'), f'{q}.NEGATEALL': ('C07', 'C14', 'C08'),
-            f'{q}.loop': ('C11', 'C07', 'C03'), f'_wcparse.{q}.raises_only_documented': ('C11', 'C10'), f'{q}.flags_used': ('C07', 'C08'), f'{q}.running_total': ('C11',),
+            f'{q}.loop': ('C11', 'C07', 'C03'), f'_wcparse.{q}.raises_only_documented': ('C11', 'C10'), f'{q}.flags_used': ('C07', 'C08', 'C03', 'C06', 'C04'), f'{q}.running_total': ('C11',),
         }
 
     def lemmas(self):
